@@ -44,6 +44,7 @@ COMPONENTS = {
 SWEEP = {  # line-sweep crash enumeration: (bases, stride) per tier, victim process index
     "C11": {"quick": (1, 6), "thorough": (10, 1), "victim": 0},
     "C16": {"quick": (1, 6), "thorough": (10, 1), "victim": 0},
+    "C20": {"quick": (2, 1), "thorough": (40, 1), "victim": 2},
 }
 
 
@@ -99,7 +100,7 @@ def run_check(prop, tier, base_seed, args):
             else:
                 new_viol.append((rec, v))
     for eid, (e, n, seed) in sorted(known_hits.items()):
-        lines.append("KNOWN-FINDING: property=%s %s [%s] (class %s, %d of the first %d violating runs; e.g. seed %d)"
+        lines.append("KNOWN-FINDING: property=%s %s [%s] (class %s, %d matching violations in the %d recorded violating runs; e.g. seed %d)"
                      % (prop, e["description"], eid, e["class"], n, len(total["violations"]), seed))
     reported = set()
     for rec, v in new_viol:
